@@ -22,7 +22,7 @@ from netCDF4 import Dataset
 
 from vmon import common as C
 from vmon import world as W
-from vmon.env import REPO
+from vmon.env import REPO, VERIF
 from vmon.hooks import Hooks
 from vmon.scenario import build_config, output_files, run_ladim, tadd
 
@@ -33,7 +33,7 @@ LEVEL_TEXT = ("Each of ~30 single faults (forcing not covering the window, frame
               "illegal subgrids) is injected into each of 8 base scenarios (quick) plus 400 random bases (thorough); the real start-up must refuse every one before the first step and write no record.")
 LEVEL_NOTE = "Single faults only. 'Refused' = SystemExit with a non-zero code or any other exception raised before the first Model.update; the fault-free base must complete, otherwise the case is void and not counted."
 RULE = ("case = (base, fault). Non-trivial: the base ran and the fault is really present in the files/configuration written (e.g. the unsorted frame times are read back); distinct by (base, fault).")
-MANDATORY = ["coverage_fault_with_the_ROMS2_modules", "release_rows_outside_the_window_not_in_time_order", "forcing_ends_inside_the_last_partial_step_reversed", "forcing_ends_inside_the_last_partial_step_forward", "fault_in_a_version_1_configuration", "fault_in_a_warm_started_setup", "forcing_files_with_different_time_units", "refused_before_first_step", "base_forward", "base_reversed", "base_multifile", "base_continuous", "subprocess_exit_status_checked", "fault_presence_verified", "fault_written_over_a_valid_setup", "base_with_legal_negative_subgrid", "subgrid_fault_with_negative_limits"]
+MANDATORY = ["lonlat_release_with_a_grid_plugin_that_cannot_convert", "coverage_fault_with_the_ROMS2_modules", "release_rows_outside_the_window_not_in_time_order", "forcing_ends_inside_the_last_partial_step_reversed", "forcing_ends_inside_the_last_partial_step_forward", "fault_in_a_version_1_configuration", "fault_in_a_warm_started_setup", "forcing_files_with_different_time_units", "refused_before_first_step", "base_forward", "base_reversed", "base_multifile", "base_continuous", "subprocess_exit_status_checked", "fault_presence_verified", "fault_written_over_a_valid_setup", "base_with_legal_negative_subgrid", "subgrid_fault_with_negative_limits"]
 ASSUMPTIONS = ["single faults (no combinations)"]
 TIMEOUT = {"quick": 1200, "thorough": 3500}
 
@@ -45,7 +45,7 @@ FAULTS = ["forcing_ends_early", "forcing_starts_late", "forcing_starts_late_subs
           "subgrid_i0_far_negative", "subgrid_j0_far_negative", "subgrid_negative_i1_le_i0", "subgrid_negative_j1_le_j0", "subgrid_i1_minus_imax",
           "v1_missing_grid_file", "v1_missing_forcing_file", "warm_start_stop_not_after_restart_time",
           "last_frame_duplicated", "last_frame_steps_back", "continuous_release_without_a_tick_in_the_window",
-          "forcing_ends_inside_the_last_partial_step", "releases_straddle_window_rows_not_in_time_order", "roms2_forcing_ends_early", "roms2_forcing_starts_late"]
+          "forcing_ends_inside_the_last_partial_step", "releases_straddle_window_rows_not_in_time_order", "roms2_forcing_ends_early", "roms2_forcing_starts_late", "plugin_grid_without_conversion_lonlat_release"]
 
 
 def bases(tier: str, seed: int) -> list[dict[str, Any]]:
@@ -168,6 +168,8 @@ def base_files(b: dict[str, Any], wd: Path, fault: str | None):
     elif fault == "release_with_X_only":
         cols = ["release_time", "X", "Z"]
         rows = [[r[0], r[1], r[3]] for r in rows]
+    elif fault == "plugin_grid_without_conversion_lonlat_release":  # positions given as lon/lat only, the grid plug-in has no way to convert them
+        cols = ["release_time", "lon", "lat", "Z"]
     elif fault == "release_with_Y_only":
         cols = ["release_time", "Y", "Z"]
         rows = [[r[0], r[2], r[3]] for r in rows]
@@ -197,6 +199,12 @@ def apply_conf_fault(conf: dict[str, Any], fault: str | None, b: dict[str, Any],
         conf["forcing"]["filename"] = str(wd / "no_such_forcing_*.nc")
     elif fault == "missing_release_file":
         conf["release"]["release_file"] = str(wd / "no_such_release.rls")
+    elif fault in ("plugin_grid_without_conversion_lonlat_release", "_plugin_grid_valid"):
+        # a user's grid class derived from ladim's BaseGrid that implements what BaseGrid asks for (no lon/lat conversion), with an analytic forcing
+        gfile = wd / "based_grid.py"
+        gfile.write_text("from ladim.grid import BaseGrid\nfrom vmon.plugins.ana_grid import Grid as _G\n\n\nclass Grid(_G, BaseGrid):\n    pass\n")
+        conf["grid"] = dict(module=str(gfile), filename="unused-by-this-plug-in", xmin=0.0, xmax=15.0, ymin=0.0, ymax=11.0, dx=1000.0)
+        conf["forcing"] = dict(module=str(VERIF / "vmon" / "plugins" / "ana_forcing.py"), filename="unused-by-this-plug-in", flow=dict(kind="rotation", omega=1.0e-5, xc=8.0, yc=6.0), record=False)
     elif fault in ("roms2_forcing_ends_early", "roms2_forcing_starts_late", "_roms2_valid"):
         # the documented alternative grid/forcing module (adaptive subgrid) has its own coverage check
         conf["grid"]["module"] = "ladim.ROMS2"
@@ -329,7 +337,7 @@ def run_case(case: dict[str, Any], wd: Path) -> dict[str, Any]:
     # the faulty set-up is written over the valid one: same directory, same file names, same process (what a user who edits
     # or replaces files between two runs does)
     shared = (b["id"] + FAULTS.index(fault)) % 2 == 0
-    basefault = "_partial_stop_valid" if fault == "forcing_ends_inside_the_last_partial_step" else ("_roms2_valid" if fault.startswith("roms2_") else None)  # the valid twin has the same (off-grid) stop time
+    basefault = "_partial_stop_valid" if fault == "forcing_ends_inside_the_last_partial_step" else ("_roms2_valid" if fault.startswith("roms2_") else ("_plugin_grid_valid" if fault.startswith("plugin_grid_") else None))  # the valid twin has the same (off-grid) stop time
     res0, nupd0, nwrite0, nrec0, _p, _s = one_run(copy.deepcopy(b), basefault, wd / ("run" if shared else "base"), False)
     if shared:
         import shutil  # noqa: PLC0415
@@ -358,6 +366,8 @@ def run_case(case: dict[str, Any], wd: Path) -> dict[str, Any]:
     sit["fault_written_over_a_valid_setup"] = int(shared)
     sit["fault_in_a_version_1_configuration"] = int(fault.startswith("v1_") and present)
     sit["fault_in_a_warm_started_setup"] = int(fault.startswith("warm_"))
+    if fault.startswith("plugin_grid_"):
+        sit["lonlat_release_with_a_grid_plugin_that_cannot_convert"] = 1
     if fault.startswith("roms2_"):
         sit["coverage_fault_with_the_ROMS2_modules"] = int(bool(present))
     if fault == "releases_straddle_window_rows_not_in_time_order":
